@@ -7,6 +7,7 @@ import Operon.Model.Wiring
   rawwire a p b q                           diagram.wires.append(Wire(…))  (no check)
   handler N raise | retnone | ret p:raw:k p:typed:dt:il:k …        register_module with a scripted handler
   ext M P raw k | ext M P typed dt il k     external_inputs[M][P] = …
+  extmod M                                  external_inputs.setdefault(M, {})
   names S                                   (first line) naming scheme used by the harness for module / port names
   exec E                                    execute(external_inputs or None, enforce_static_checks=E); E = d: default
   handler2 N … / exec2 E                    the same on a SECOND DiagramExecutor built on the same diagram
@@ -209,6 +210,8 @@ def step (st : DSt) (toks : List String) : DSt × String :=
     | some sc =>
       if (st.d.findMod (natD n)).isNone then (st, showErr .unknownModule ++ " ## handler2:unknownModule")
       else ({ st with hs2 := setKey (natD n) sc st.hs2 }, "ok ## handler2")
+  | ["extmod", m] =>     -- external_inputs[M] = {} unless it has entries already
+    ({ st with ext := setKey (natD m) ((st.ext.lookup (natD m)).getD []) st.ext }, "ok ## extmod")
   | "ext" :: m :: p :: rest =>
     match parseVal rest with
     | some (v, []) =>
